@@ -207,3 +207,28 @@ def rule_repeat_restart(prog):
 
 def run_all(prog):
     return [rule_bal(prog), rule_seq_custom(prog), rule_num_mode(prog), rule_repeat_restart(prog)]
+
+
+def rule_evicted_release(prog):
+    """R-MACRO-EVICT-ALL (C08): when a fifth macro evicts the oldest one, *every* key the evicted macro still holds is
+    released: the scan over its remaining events visits all of them. A scan that stops at the first later Press/Tap
+    misses the releases that come after it (`S-(x 200 y)`: the shift release follows the press of y) and the
+    modifier stays down for ever."""
+    from rules.r_repeat import early_loop_exits
+    res = RuleResult("R-MACRO-EVICT-ALL", "the release scan over an evicted macro's remaining events visits every event", floor=1)
+    f = prog.fn_opt("kanata_keyberon::layout::Layout::release_keys_of_evicted_sequence")
+    if f is None:
+        res.viol("anchor", "keyberon/src/layout.rs", "Layout::release_keys_of_evicted_sequence not found")
+        return res
+    res.fn(f)
+    ex = early_loop_exits(f)
+    loops = sum(1 for _, t in f.calls() if "desugar:ForLoop" in (t.get("mac") or []) and (callee_name(t) or "").endswith("::next"))
+    ok = loops >= 1 and not ex
+    res.inst("scan", where=f.loc, loops=loops, early_exits=len(ex), ok=ok)
+    res.oblige(ok)
+    if not ok:
+        res.viol("scan", "%s:%s" % (f.file, ex[0][1] if ex else f.line_of(0)),
+                 "the loop at line %s that releases the keys of an evicted macro can be left before all remaining events were looked at: "
+                 "a Release that follows a later Press/Tap is never applied, the key the macro was holding stays pressed"
+                 % (ex[0][0] if ex else "?"))
+    return res
